@@ -400,7 +400,15 @@ func seqCmd(t *rapid.T, stream string) Msg {
 // validMedia is a well-framed audio / video / data message a publisher may send.
 func validMedia(t *rapid.T) Msg {
 	m := Msg{Kind: "raw", Msid: 1, Ts: rapid.SampledFrom([]uint32{0, 40, 80, 1000, 0xFFFFFF}).Draw(t, "mediaTs")}
-	switch rapid.IntRange(0, 4).Draw(t, "mediaKind") {
+	switch rapid.IntRange(0, 6).Draw(t, "mediaKind") {
+	case 5:
+		// well-framed video messages whose AVCC body has odd NAL length fields (zero-length NAL last / first, length
+		// beyond the message, length field cut): the payload domain proper is C05's, a few constants keep the byte-level
+		// check honest about "after publish, any bytes" (seed c04-g)
+		m.Type, m.Csid = 9, 6
+		m.RawHex = rapid.SampledFrom([]string{"270100000000000002419a00000000", "2701000000000000000000000002419a", "27010000000000ffff419a", "2701000000000000", "1701000000000000000165", "1c0100000000000000"}).Draw(t, "oddAvcc")
+	case 6:
+		m.Type, m.Csid, m.RawHex = 9, 6, "170000000001640020ffe1000a6764002096540a0fd390" + "01000468ee3cb0" // avc sequence header, then the odd bodies reach the remuxers
 	case 0:
 		m.Type, m.Csid, m.RawHex = 8, 4, "af0112100000"
 	case 1:
